@@ -339,6 +339,14 @@ class ConventionalResponseHandler(MessageHandler, ResponseHandler):
             raise transport_errors.SmartProtocolError(
                 f"Unknown response status: {byte!r}"
             )
+        if (
+            not self._body_started
+            and self.status is not None
+            and self.args is not None
+        ):
+            # A status byte after the response arguments belongs to the body
+            # stream: the stream failed before producing its first chunk.
+            self._body_started = True
         if self._body_started:
             if self._body_stream_status is not None:
                 raise transport_errors.SmartProtocolError(
